@@ -14,10 +14,11 @@ package c08
 //   form   how the value of that option is written: a literal (quoted, bare), the empty / blank / tab literal, literals
 //          that are no valid value for that option, and every placeholder syntax of docs/configuration.md - {$V}, {$V:}
 //          (empty default), {$V:default}, {env.V}, {file.PATH}, {vars.X} over {env.V} and over {file.PATH} - quoted and
-//          bare, for secret references also behind the literal scheme prefix ("raw:{$V}")
+//          bare, for secrets also behind the literal scheme prefix ("raw:{$V}") and as a secret reference that is read when
+//          the authenticators are built ("env:V", "file:PATH")
 //   state  of the variable / file a placeholder names: holds the valid value | empty | blank | unset (file: missing)
 //   op     fresh boot with that text in that environment | boot with the valid value, then change the environment (for
-//          literals: rewrite the Hookaidofile) and reload
+//          literals: rewrite the Hookaidofile) and reload | thorough: ... and then bring the valid value back and reload again
 //
 // Oracle (from the statement; the only admissible outcomes):
 //   (a) the configuration is refused - the boot fails; a reload reports failure and the PREVIOUS configuration stays in
@@ -261,11 +262,12 @@ type declForm struct {
 	name    string
 	carrier string // "" (literal) | env | file
 	quoted  bool
-	prefix  bool                                  // the placeholder stands behind the site's literal scheme prefix
-	literal func(s *declSite) (string, string)    // literal forms: (value, class)
-	expr    func(loc, def string) string          // placeholder forms: the placeholder text
-	vars    func(loc string) string               // vars block the expression refers to
-	def     bool                                  // the placeholder carries the default <alt>
+	prefix  bool                               // the placeholder stands behind the site's literal scheme prefix
+	literal func(s *declSite) (string, string) // literal forms: (value, class)
+	expr    func(loc, def string) string       // placeholder forms: the placeholder text
+	vars    func(loc string) string            // vars block the expression refers to
+	def     bool                               // the placeholder carries the default <alt>
+	ref     bool                               // a secret reference (env:NAME / file:PATH) instead of a placeholder
 }
 
 func declForms(s *declSite) []declForm {
@@ -297,6 +299,12 @@ func declForms(s *declSite) []declForm {
 			fp.name, fp.prefix = f.name+"/behind-"+strings.TrimSuffix(s.prefix, ":")+"-prefix", true
 			out = append(out, fp)
 		}
+	}
+	if s.prefix != "" {
+		// secret references that are read when the authenticators are built (docs/security.md "Secret Management")
+		out = append(out,
+			declForm{name: "env-ref", carrier: "env", quoted: true, prefix: true, ref: true, expr: func(l, _ string) string { return "env:" + l }},
+			declForm{name: "file-ref", carrier: "file", quoted: true, prefix: true, ref: true, expr: func(l, _ string) string { return "file:" + l }})
 	}
 	out = append(out,
 		declForm{name: "vars-env/quoted", carrier: "env", quoted: true, expr: func(string, string) string { return "{vars.EXT}" },
@@ -405,6 +413,9 @@ func (k *declCase) text(slot int, e *declEnv) string {
 		def, pre := s.alt, ""
 		if f.prefix {
 			def, pre = strings.TrimPrefix(s.alt, s.prefix), s.prefix
+		}
+		if f.ref {
+			pre = "" // the reference replaces the scheme prefix
 		}
 		expr = pre + f.expr(e.loc, def)
 		if f.quoted {
@@ -568,7 +579,7 @@ func (w *declWorld) refused(s *declSite) {
 	}
 }
 
-// declRunCase executes one case; outcome: boot-refused | boot-accepted | reload-refused | reload-applied.
+// declRunCase executes one case; outcome: boot-refused | boot-accepted | reload-refused | reload-applied [>restored].
 func declRunCase(k *declCase, slot int, dir string) (outcome string, w *declWorld, dsl string, err error) {
 	s, f := k.site, k.form
 	e := newDeclEnv(f.carrier, dir)
@@ -625,13 +636,32 @@ func declRunCase(k *declCase, slot int, dir string) (outcome string, w *declWorl
 		// reported as failed: the previous configuration stays in force, completely
 		w.good("previous-value-still-in-force", s.auth(s.valid))
 		w.refused(s)
-		return "reload-refused", w, dsl, nil
+		outcome = "reload-refused"
+	} else {
+		if class == "value" {
+			w.good("value-in-force", s.auth(v))
+		}
+		w.refused(s)
+		outcome = "reload-applied"
 	}
-	if class == "value" {
-		w.good("value-in-force", s.auth(v))
+	if k.Op != "reload-restore" {
+		return outcome, w, dsl, nil
 	}
+	// the valid value comes back: the next reload must apply it, and nothing of the episode may linger
+	if f.literal != nil {
+		if err := os.WriteFile(w.a.ConfigPath, []byte(first), 0o644); err != nil {
+			return infra("write config: %v", err)
+		}
+	} else if err := e.set("valid", strings.TrimPrefix(s.valid, declPrefix(k))); err != nil {
+		return infra("set environment: %v", err)
+	}
+	if !w.a.Reload("verif") {
+		return infra("reload refused after the valid value %q came back", s.valid)
+	}
+	w.a.VerifForwardAuthClient(&http.Client{Transport: w.rt})
+	w.good("restored-value-in-force", s.auth(s.valid))
 	w.refused(s)
-	return "reload-applied", w, dsl, nil
+	return outcome + ">restored", w, dsl, nil
 }
 
 func declPrefix(k *declCase) string {
@@ -641,7 +671,7 @@ func declPrefix(k *declCase) string {
 	return ""
 }
 
-func declCases() []*declCase {
+func declCases(thorough bool) []*declCase {
 	var out []*declCase
 	for _, s := range declSites() {
 		for _, f := range declForms(s) {
@@ -650,8 +680,12 @@ func declCases() []*declCase {
 				states = []string{"-"}
 			}
 			for _, st := range states {
-				for _, op := range []string{"boot", "reload"} {
-					if op == "reload" && (st == "valid" || f.name == "literal/quoted") {
+				ops := []string{"boot", "reload"}
+				if thorough {
+					ops = append(ops, "reload-restore")
+				}
+				for _, op := range ops {
+					if op != "boot" && (st == "valid" || f.name == "literal/quoted") {
 						continue // nothing changes between the boot and the reload
 					}
 					out = append(out, &declCase{Family: "declared", Site: s.name, Form: f.name, State: st, Op: op, site: s, form: f})
@@ -670,7 +704,7 @@ func declReport(r *runner.Run, tl *tally, k *declCase, slot int, dir string) {
 	}
 	n := tl.n
 	n["declared_cases"]++
-	n["declared_"+strings.ReplaceAll(outcome, "-", "_")]++
+	n["declared_"+strings.NewReplacer("-", "_", ">", "_").Replace(outcome)]++
 	_, class := k.form.resolve(k.site, k.State)
 	tl.distinct["declared:"+k.Site+":"+k.Form+":"+k.State+":"+k.Op+":"+outcome] = struct{}{}
 	if w == nil {
@@ -682,7 +716,7 @@ func declReport(r *runner.Run, tl *tally, k *declCase, slot int, dir string) {
 	for c, v := range w.n {
 		n[c] += v
 	}
-	if class != "value" && outcome != "reload-refused" {
+	if class != "value" && !strings.HasPrefix(outcome, "reload-refused") {
 		n["declared_accepted_without_usable_value"]++
 		tl.classes["declared: accepted without a usable value: "+k.Site+" "+k.Form+" state="+k.State]++
 	}
@@ -727,7 +761,7 @@ func declReport(r *runner.Run, tl *tally, k *declCase, slot int, dir string) {
 }
 
 func runDeclared(t *testing.T, r *runner.Run) {
-	cases := declCases()
+	cases := declCases(r.Thorough())
 	workers := runtime.NumCPU()
 	if workers > 12 {
 		workers = 12
@@ -770,7 +804,7 @@ func declReplayOne(t *testing.T, r *runner.Run, raw []byte) {
 		r.Infra("replay file: %v", err)
 		return
 	}
-	for _, k := range declCases() {
+	for _, k := range declCases(true) {
 		if k.Site == f.Replay.Site && k.Form == f.Replay.Form && k.State == f.Replay.State && k.Op == f.Replay.Op {
 			dir := filepath.Join(scratch, "declared-replay")
 			os.MkdirAll(dir, 0o755)
